@@ -17,8 +17,8 @@ PROPS = ['C01', 'C02', 'C03', 'C04', 'C06', 'C07', 'C08', 'C09', 'C11', 'C13']
 # ------------------------------------------------------------------ batches
 def batches(tier):
     if tier == 'thorough':
-        return [('core', 2500, 70), ('resize', 1800, 70), ('close', 1200, 80), ('mixed', 1500, 90)]
-    return [('core', 150, 60), ('resize', 110, 60), ('close', 80, 70), ('mixed', 60, 80)]
+        return [('core', 2000, 130), ('resize', 1600, 130), ('close', 1000, 140), ('mixed', 1400, 160)]
+    return [('core', 110, 130), ('resize', 90, 130), ('close', 60, 130), ('mixed', 60, 150)]
 
 
 def gen_traces(seed, profile, n, maxlabels):
@@ -62,6 +62,11 @@ def load_corpus():
                 it['profile'] = it.get('profile', 'corpus')
                 items.append(it)
     return items
+
+
+def model_diff(traces, tag='d'):
+    cases = [(t['cfg'] + [0], t['labels'], t['obs']) for t in traces]
+    return corr.run_diff(tag, 'Managed.Decode', 'diff_case_z', cases, shard=30)
 
 
 def model_obs(traces, tag='m'):
@@ -357,7 +362,7 @@ def analyze(traces, mobs_all):
         if t.get('want_labels') is not None and len(t['labels']) != len(t['want_labels']):
             harness_errs.append((ti, 'corpus trace %s stops after %d of %d labels' % (t.get('name'), len(t['labels']), len(t['want_labels']))))
         P = [mobs.parse_obs(o) for o in t['obs']]
-        M = [mobs.parse_obs(o) if o is not None else None for o in mo]
+        M = None if mo is None else [mobs.parse_obs(o) if o is not None else None for o in mo]
         h = corr.trace_hash(t)
         nt = nontrivial(t)
         for l in t['labels']:
@@ -380,6 +385,8 @@ def analyze(traces, mobs_all):
             if p in fails:
                 s['monitor_fails'].append(dict(trace=ti, step=fails[p][0], msg=fails[p][1]))
             proj = PROJ[p]
+            if M is None:
+                continue  # the whole observation sequence equals the model's
             for i, d in enumerate(P):
                 m = M[i] if i < len(M) else None
                 if m is None:
@@ -414,9 +421,17 @@ def run_engine(seed, tier):
     for bi, (profile, n, ml) in enumerate(batches(tier)):
         traces += gen_traces(seed * 1000 + bi, profile, n, ml)
     t1 = time.time()
-    mo = model_obs(traces, tag='m%d' % os.getpid())
+    # fast path: the comparison of the full observation runs inside Coq; only for traces that
+    # differ somewhere the model's observations are printed and compared per projection
+    diffs = model_diff(traces, tag='d%d' % os.getpid())
+    bad = [i for i, d in enumerate(diffs) if d >= 0]
+    mo = [None] * len(traces)
+    if bad:
+        for i, m in zip(bad, model_obs([traces[i] for i in bad], tag='m%d' % os.getpid())):
+            mo[i] = m
     t2 = time.time()
     res = analyze(traces, mo)
+    res['full_obs_differ'] = len(bad)
     res.update(ntraces=len(traces), ncorpus=ncorpus, key=key, seed=seed, tier=tier,
                timing=dict(gen_s=round(t1 - t0, 1), model_s=round(t2 - t1, 1), analyze_s=round(time.time() - t2, 1)))
     # keep the traces needed for replays and samples
